@@ -369,6 +369,49 @@ def run(ctx):
               failures=len(failing), failure_classes=hist, attribution_reruns=nvar)
 
 
+    buffer_boundary_cases(ctx)
+
+
+def buffer_boundary_cases(ctx):
+    """spellings in which a newline is significant (CR LF inside long strings and long clobs, escaped line continuations,
+    a // comment ended by CR LF), a multi-byte UTF-8 character, an escape, a long-string delimiter and a :: operator,
+    padded so that they straddle every offset around the Reader's 4096-byte buffer fills (and the second fill)"""
+    q3 = b"'" * 3
+    cores = [
+        (q3 + b"ab\r\ncd" + q3, [([], ("str", b"ab\ncd"))]),
+        (q3 + b"ab\rcd" + q3 + b" " + q3 + b"x\r\n" + q3, [([], ("str", b"ab\ncdx\n"))]),
+        (b'"ab\\\r\ncd"', [([], ("str", b"abcd"))]),
+        (q3 + b"ab\\\r\ncd" + q3, [([], ("str", b"abcd"))]),
+        (b"{{" + q3 + b"a\r\nb" + q3 + b"}}", [([], ("clob", b"a\nb"))]),
+        (b"1 // c\r\n 2", [([], ("int", 1)), ([], ("int", 2))]),
+        (q3 + "é\U0001F600".encode("utf-8") + q3, [([], ("str", "é\U0001F600".encode("utf-8")))]),
+        (b'"a\\u00e9b"', [([], ("str", "aéb".encode("utf-8")))]),
+        (b"abc::" + q3 + b"x" + q3 + b" " + q3 + b"y" + q3, [([b"abc"], ("str", b"xy"))]),
+        (b"{{ aGVsbG8= }}", [([], ("blob", b"hello"))]),
+        (b"2001-02-03T04:05:06.789+01:30", [([], ("ts", (2001, 2, 3, 4, 5, 6, 789000000, 90, 2, 6, 3)))]),
+    ]
+    lines, exps, texts = [], [], []
+    for core, forest in cores:
+        for base in (4096, 8192):
+            for shift in range(-len(core) - 2, 3):
+                pad = base + shift
+                if pad < 0:
+                    continue
+                text = b" " * pad + core + b" 7"
+                lines.append("btrav 0 x" + text.hex())
+                exps.append(expected_trace(forest + [([], ("int", 7))]))
+                texts.append(text)
+    go = run_go(lines)
+    bad = 0
+    for ln, e, g, tx in zip(lines, exps, go, texts):
+        if not go_ok(g, e):
+            bad += 1
+            ctx.fail("property", "C02-buffer-boundary", ln[:3000],
+                     "%s ; the spelling %r starts at offset %d" % (describe(g, e), tx.lstrip()[:60], len(tx) - len(tx.lstrip())), None)
+    ctx.count("C02-buffer-boundary", len(lines), [l[-80:] + str(len(l)) for l in lines], failures=bad,
+              sample="%d spaces then %r" % (len(texts[0]) - len(texts[0].lstrip()), texts[0].lstrip()[:40]) if texts else None)
+
+
 # ---------------------------------------------------------------------------
 # replay / classification without the forest
 # ---------------------------------------------------------------------------
